@@ -19,6 +19,7 @@
 import Wbxml.Lemmas.AllocCont
 import Wbxml.Lemmas.AllocParse
 import Wbxml.Lemmas.AllocEnc
+import Wbxml.Lemmas.AllocStrtbl
 import Wbxml.Model.AllocOld
 namespace Wbxml.Props.C16
 open Wbxml Wbxml.Model.Alloc
@@ -310,6 +311,32 @@ theorem strtbl_add_element_clean (e : AEnc) (elt : StrElt) (s : Ledger) (wf : s.
       (fun r => r.1.owned ++ (if r.2.2 then [] else elt.owned)) :=
   clean_of_spec fun s' hl hn => (strtblAddElement_spec e elt s' (wf_of_eq wf hl hn) (owns_of_eq own hl)).mono
     fun r t ⟨_, _, _, c, h, _⟩ => ⟨c, fun hh => by rw [h hh]; rfl⟩
+
+/-- `wbxml_strtbl_check_references` (repaired, incl. the copy of shared text-node buffers): for every
+    list of strings, borrowed (`stat`) or owned, and every schedule. Blocks afterwards: the encoder
+    with what was added to its string table, `*strings` (only when the first allocation failed) and
+    `one_ref`; an error whenever a request failed. -/
+theorem strtbl_check_references_clean (e : AEnc) (strings : AList ABuf) (stat : Bool) (s : Ledger) (wf : s.WF)
+    (own : Owns s (e.owned ++ stringsOwned stat strings.hdr strings.cells))
+    (hbor : stat = true → ∀ b ∈ strings.cells.map (·.2),
+      b.hdr ∈ s.live ∧ b.hdr ∉ e.owned ++ stringsOwned stat strings.hdr strings.cells) :
+    AnyScheduleClean (checkReferences e strings stat) (fun r => r.2.1 != OK) s
+      (e.owned ++ stringsOwned stat strings.hdr strings.cells)
+      (fun r => r.1.owned ++ ((match r.2.2.1 with | none => [] | some l => stringsOwned stat l.hdr l.cells) ++
+          (match r.2.2.2 with | none => [] | some one => refsOwned one))) :=
+  clean_of_spec fun s' hl hn =>
+    (checkReferences_spec e strings stat s' (wf_of_eq wf hl hn) (owns_of_eq own hl)
+      (fun h b hb => by rw [hl]; exact hbor h b hb)).mono
+      fun r t ⟨_, _, _, c, _, _, h, _⟩ => ⟨c, fun hh => by simpa using h hh⟩
+
+/-- … with `WBXML_OK`, `*strings` has been destroyed and reset and `one_ref` is there. -/
+theorem strtbl_check_references_ok (e : AEnc) (strings : AList ABuf) (stat : Bool) (s : Ledger) (wf : s.WF)
+    (own : Owns s (e.owned ++ stringsOwned stat strings.hdr strings.cells))
+    (hbor : stat = true → ∀ b ∈ strings.cells.map (·.2),
+      b.hdr ∈ s.live ∧ b.hdr ∉ e.owned ++ stringsOwned stat strings.hdr strings.cells) :
+    Good (checkReferences e strings stat) s (fun r _ =>
+      (r.2.1 = OK → r.2.2.1 = none ∧ r.2.2.2.isSome) ∧ (r.2.1 ≠ OK → r.2.2.2 = none)) :=
+  (checkReferences_spec e strings stat s wf own hbor).mono fun r t ⟨_, _, _, _, a, b, _, _⟩ => ⟨b, a⟩
 
 theorem encoder_create_clean (s : Ledger) (wf : s.WF) :
     AnyScheduleClean encCreate Option.isNone s [] ownedEncOpt :=
